@@ -16,7 +16,7 @@ EXPLANATION = (
     'return); diff does not write the set. D1 role routing over six hops: '
     'diff().0 (modifications) reaches only fetch_docs + MultiSet and diff().1 (removals) only Del / MultiDel — through on_diff, '
     'get_keyspace_diff\'s struct fields, repair_members\' arguments, begin_keyspace_sync\'s parameters and the two application tasks (both '
-    'lists have the same type, so the compiler accepts any swap). A the actor applies every entry of a batch it is handed (C02\'s handler obligations re-evaluated: nothing is dropped between the gate and storage, the set is folded for exactly what storage wrote). D3.SEM the poller interpreted over three polling rounds against two peers: every keyspace a peer lists whose change stamp differs from the one recorded at that peer\'s last successful exchange of it has its difference computed against that peer and is exchanged with it. D4 source-id discipline (every live-path message carries the ordered-stream source id, every repair-path message the repair source id; = C01.S1). NOT decided: "applying the difference leaves nothing further to fetch" '
+    'lists have the same type, so the compiler accepts any swap). A the actor applies every entry of a batch it is handed (C02\'s handler obligations re-evaluated: nothing is dropped between the gate and storage, the set is folded for exactly what storage wrote). D3.SEM the poller interpreted over three polling rounds against two peers: every keyspace a peer lists whose change stamp differs from the one recorded at that peer\'s last successful exchange of it has its difference computed against that peer and is exchanged with it. D5.SEM the progress tracker / watcher pair interpreted (done is what the task set on its copy, expired a timeout without progress). D4 source-id discipline (every live-path message carries the ordered-stream source id, every repair-path message the repair source id; = C01.S1). NOT decided: "applying the difference leaves nothing further to fetch" '
     'and the symmetric-exchange statement (consequences over all reachable set pairs).')
 ASSUMPTIONS = ['derived Ord on HLCTimestamp (C04.T1)']
 
@@ -404,6 +404,8 @@ def check_D1(ctx, facts, rule='C05.D1'):
     if rule.startswith('C05'):
         import poll_abs
         poll_abs.check_polling(ctx, facts, 'C05.D3.SEM')
+        import tracker_abs
+        tracker_abs.check_tracker(ctx, facts, 'C05.D5.SEM')
     if bks is not None and 'bundle' in pos and routing_sem:
         ctx.ok(rule, 'hop3|repair_members', site(rm[0]) if rm else '', 'the two lists travel together, by name, in one private struct handed to begin_keyspace_sync; which task gets which is decided by the routing summary')
         check_D1_tasks(ctx, facts, rule)
